@@ -256,6 +256,7 @@ func dbsimMain(c *Ctx) {
 		r := rand.New(rand.NewSource(seed))
 		dc := dbsimGen(r, c.Mode, c.Thorough())
 		tape := simrt.NewTape(seed)
+		c.Begin(seed, dc)
 		out := runDBCase(c, dc, tape, c.Mode)
 		c.Res.Runs++
 		c.RunHash(out.trace, out.pickHash, histDigest(out.hist))
